@@ -152,7 +152,7 @@ fn dispatch(op: &str, args: &[Vec<u8>]) -> Result<Fields> {
             let index: usize = text(arg(args, 0)?)?
                 .parse()
                 .context("harness: index is not a usize")?;
-            let p = hdk::Path::for_index(index);
+            let p = hdk::Path::for_index(index)?;
             vec![p.to_string().into_bytes()]
         }
         "derive" => {
